@@ -438,6 +438,14 @@ func (r *rewriter) stmt(s ast.Stmt) ast.Stmt {
 				}
 			}
 		}
+	case *ast.DeferStmt:
+		// Call is a *ast.CallExpr field: rewrite it as an expression (defer close(ch) etc.)
+		if ne, ok := r.expr(x.Call).(*ast.CallExpr); ok {
+			x.Call = ne
+		} else {
+			fatal("%s: deferred call rewrites to a non-call", r.pos(x))
+		}
+		return x
 	case *ast.GoStmt:
 		return r.goStmt(x)
 	case *ast.SelectStmt:
